@@ -3,7 +3,7 @@ that produced it.  Exit 1 (and a VIOLATION line) if the disagreement is still th
 import json
 import os
 
-from common import CACHE, ensure_oracle, log, run_harness, run_tlc, tool_error
+from common import nl_lines, CACHE, ensure_oracle, log, run_harness, run_tlc, tool_error
 
 
 def replay(path):
@@ -21,7 +21,7 @@ def replay(path):
                 f.write(json.dumps(m["case"]) + "\n")
             os.environ["PVH_SCRATCH"] = os.path.join(CACHE, "pvh-replay-%d" % os.getpid())
             out, _ = run_harness(["replay", "--in", tmp, "--forms", "--oracle", ensure_oracle(), "--draws", "3"])
-            still = [json.loads(l)["mismatch"] for l in out.splitlines() if l.startswith("{") and "mismatch" in json.loads(l)]
+            still = [json.loads(l)["mismatch"] for l in nl_lines(out) if l.startswith("{") and "mismatch" in json.loads(l)]
             import shutil
             shutil.rmtree(os.environ["PVH_SCRATCH"], ignore_errors=True)
             if still:
@@ -36,7 +36,7 @@ def replay(path):
             trace = tmp + ".trace"
             run_harness(["reexec", "--oracle", ensure_oracle(), "--in", tmp, "--out", trace])
             res = run_tlc("Trace_Api", modules_dir="trace", env={"TRACE": trace}, workers=1, timeout=300)
-            ev = json.loads(open(trace).read().splitlines()[0])
+            ev = json.loads(nl_lines(open(trace).read())[0])
             os.remove(trace)
             bad = None
             for tag, payload in res.printed:
